@@ -1,5 +1,6 @@
 import Cherab.Drv.Proto
 import Cherab.Model.Inversion
+import Cherab.Gen.Inversion
 open Cherab.Drv Cherab.Inversion
 
 /-- split a flat list into rows of length `n` -/
@@ -54,8 +55,8 @@ def step (ts : List String) : String :=
       let W := rowsOf n m Wf
       let C := stackC n W (pF a) L
       let d := stackD n b
-      let v := maxOf d
-      let res := nnlsWrap (fun _ _ => (xs, rn)) n W b (pF a) L
+      let v := normaliser Cherab.Gen.Inversion.nnlsVmaxGuarded d
+      let res := nnlsWrap Cherab.Gen.Inversion.nnlsVmaxGuarded (fun _ _ => (xs, rn)) n W b (pF a) L
       s!"{fF v} {fFs (flat (divMat v C))} {fFs (divVec v d)} {fFs res.1} {fF res.2}"
   -- lstsq m n alpha hasL W b [L] -> C | d   (as handed to the solver)
   | "lstsq" :: m :: n :: a :: hasL :: r =>
